@@ -6,14 +6,14 @@
 (* perturbation variable, so the exact derivative of any recorded program    *)
 (* with respect to any tensor element is read off the tangent of the result: *)
 (* no backward rule is ever written at the reference level.                  *)
-EXTENDS Rat
+EXTENDS Rat, TLC
 
 TZero        == <<>>                                   \* empty function
 TGet(f, k)   == IF k \in DOMAIN f THEN f[k] ELSE RZero
 TAdd(f, g)   == IF DOMAIN f = {} THEN g ELSE IF DOMAIN g = {} THEN f
-                ELSE [k \in DOMAIN f \cup DOMAIN g |-> RAdd(TGet(f, k), TGet(g, k))]
-TScale(c, f) == IF RIsZero(c) THEN TZero ELSE [k \in DOMAIN f |-> RMul(c, f[k])]
-TNeg(f)      == [k \in DOMAIN f |-> RNeg(f[k])]
+                ELSE TLCEval([k \in DOMAIN f \cup DOMAIN g |-> RAdd(TGet(f, k), TGet(g, k))])
+TScale(c, f) == IF RIsZero(c) THEN TZero ELSE TLCEval([k \in DOMAIN f |-> RMul(c, f[k])])
+TNeg(f)      == TLCEval([k \in DOMAIN f |-> RNeg(f[k])])
 TUnit(k)     == [x \in {k} |-> ROne]
 
 D(v, t)      == [v |-> v, t |-> t]
